@@ -119,6 +119,12 @@ class Graph:
     def gen(self):
         r = self.r
         self.has_tmpl = r.random() < 0.6
+        # a chain of templates, each forwarding its parameter to the previous one (by value, by pointer, as a base, through an alias):
+        # the used-template-parameter facts must travel through every level whatever the order of the definitions
+        self.chain = []
+        if self.has_tmpl and r.random() < 0.6:
+            for lvl in range(1, r.choice([2, 3, 3, 4])):
+                self.chain.append(("T%d" % lvl, r.choice(["value", "value", "pointer", "base", "alias", "value+own"])))
         ntd = r.randrange(0, 4)
         for i in range(ntd):
             x = r.random()
@@ -169,7 +175,10 @@ class Graph:
                     # visiting order matter for facts that flow through template arguments
                     named = [x["name"] for x in self.structs]
                     arg = r.choice(named) if named and r.random() < 0.6 else r.choice(self.SCAL)
-                    s["fields"].append(("T0<%s>" % arg, "f%d" % f, ""))
+                    top = r.choice(["T0"] + [c[0] for c in self.chain] * 2)
+                    s["fields"].append(("%s<%s>" % (top, arg), "f%d" % f, ""))
+                    for c in self.chain:
+                        s["needs"].add(c[0])
                     if arg.startswith("S"):
                         s["needs"].add(arg)
                     s["needs"].add("T0")
@@ -190,20 +199,39 @@ class Graph:
     def render(self, order):
         out = ["// generated by props/c07.py"]
         out += ["%s %s;" % ("union" if s["union"] else "struct", s["name"]) for s in self.structs]
+        out += ["template<class T> struct %s;" % n for n in (["T0"] + [c[0] for c in self.chain] if self.has_tmpl else [])]
         out += ["typedef %s %s%s;" % (t[1], t[0], t[2]) for t in self.typedefs]
         out += ["typedef %s %s %s;" % ("union" if [s for s in self.structs if s["name"] == o][0]["union"] else "struct", o, td) for td, o in sorted(self.rec_typedefs.items())]
         for name in order:
             if name == "T0":
                 out.append("template<class T> struct T0 { T x; T *p; };")
+            elif name in [c[0] for c in self.chain]:
+                lvl = int(name[1:])
+                how = [c[1] for c in self.chain if c[0] == name][0]
+                prev = "T%d" % (lvl - 1)
+                P = "P%d" % lvl
+                if how == "value":
+                    out.append("template<class %s> struct %s { %s<%s> inner; };" % (P, name, prev, P))
+                elif how == "value+own":
+                    out.append("template<class %s> struct %s { %s<%s> inner; int own; };" % (P, name, prev, P))
+                elif how == "pointer":
+                    out.append("template<class %s> struct %s { %s<%s> *inner; };" % (P, name, prev, P))
+                elif how == "base":
+                    out.append("template<class %s> struct %s : %s<%s> { int extra; };" % (P, name, prev, P))
+                else:
+                    out.append("template<class %s> struct %s { typedef %s<%s> fwd; fwd inner; };" % (P, name, prev, P))
             else:
                 out.append(self.decl([s for s in self.structs if s["name"] == name][0]))
         return "\n".join(out) + "\n"
 
     def orders(self, k):
         """k valid (topological) orders of the definitions, the first being the natural one"""
-        names = (["T0"] if self.has_tmpl else []) + [s["name"] for s in self.structs]
+        names = (["T0"] + [c[0] for c in self.chain] if self.has_tmpl else []) + [s["name"] for s in self.structs]
         needs = {s["name"]: set(s["needs"]) for s in self.structs}
         needs["T0"] = set()
+        for c in self.chain:
+            # (templates are declared up front, so their definitions may come in any order; a `base` level needs its base complete)
+            needs[c[0]] = {"T%d" % (int(c[0][1:]) - 1)} if c[1] == "base" else set()
         res = [names]
         for _ in range(k * 4):
             if len(res) >= k:
@@ -223,10 +251,10 @@ class Graph:
 def inventory(text):
     """per type name: (attributes, fields) as emitted"""
     inv = {}
-    for m in re.finditer(r"((?:#\[[^\]]*\]\s*)*)pub (struct|union) (\w+)(?:<[^>{]*>)?\s*\{([^}]*)\}", text):
+    for m in re.finditer(r"((?:#\[[^\]]*\]\s*)*)pub (struct|union) (\w+)(<[^>{]*>)?\s*\{([^}]*)\}", text):
         attrs = " ".join(sorted(a.strip() for a in re.findall(r"#\[[^\]]*\]", m.group(1))))
-        fields = re.sub(r"\s+", " ", m.group(4)).strip()
-        inv[m.group(3)] = (m.group(2), attrs, fields)
+        fields = re.sub(r"\s+", " ", m.group(5)).strip()
+        inv[m.group(3)] = (m.group(2) + re.sub(r"\s+", "", m.group(4) or ""), attrs, fields)
     return inv
 
 
